@@ -453,6 +453,13 @@ def check(pid, tier, nshards, scale):
     for sig, text in known_hits.items():
         print(f"KNOWN-FINDING: property={pid} {sig}: {text}")
 
+    broken_shards = tot["counters"].get("harness_panic_shard_aborted", 0)
+    skipped = tot["counters"].get("oracle_exception_event_skipped", 0)
+    if broken_shards * 4 > nshards or skipped > max(5, cov["evaluations"] // 1000):
+        inconclusive(pid, f"harness-errors:shards_aborted={broken_shards},oracle_events_skipped={skipped}", tier, seed, t0,
+                     {"observed": tot["counters"]})
+    if broken_shards or skipped:
+        print(f"NOTE property={pid} harness errors tolerated: shards_aborted={broken_shards} oracle_events_skipped={skipped} (see evidence notes)")
     if canary_dead:
         inconclusive(pid, f"canaries-not-flagged:{tot['canaries_flagged']}/{tot['canaries_fed']}", tier, seed, t0,
                      {"observed": tot["counters"]})
